@@ -55,6 +55,7 @@ pub enum Op {
     ReserveEntities { w: usize, n: usize },
     Obs { w: usize },
     DropWorld { w: usize },
+    Query { w: usize, q: usize, path: String, h: HRef, n: usize },
 }
 
 fn kstr(k: &Option<usize>) -> String {
@@ -109,6 +110,7 @@ impl Op {
             Op::ReserveEntities { w, n } => format!("reserve_entities W{} n={}", w, n),
             Op::Obs { w } => format!("obs W{}", w),
             Op::DropWorld { w } => format!("drop W{}", w),
+            Op::Query { w, q, path, h, n } => format!("query W{} k={} path={} h={} n={}", w, q, path, h.show(), n),
         }
     }
 
@@ -157,6 +159,13 @@ impl Op {
             "reserve_entities" => Op::ReserveEntities { w, n: f("n").parse().unwrap() },
             "obs" => Op::Obs { w },
             "drop" => Op::DropWorld { w },
+            "query" => Op::Query {
+                w,
+                q: f("k").parse().unwrap(),
+                path: f("path").to_string(),
+                h: HRef::parse(f("h")),
+                n: f("n").parse().unwrap(),
+            },
             v => panic!("harness: unknown verb {}", v),
         }
     }
@@ -170,6 +179,8 @@ pub struct Ctx {
     by_name: HashMap<(usize, usize), usize>,
     cur_op: usize,
     cur_sub: usize,
+    /// one `PreparedQuery` per menu entry, shared by all worlds of the history (C17)
+    prepared: HashMap<usize, Box<dyn std::any::Any>>,
     type_ids: HashMap<TypeId, usize>,
     pub stats: Stats,
 }
@@ -258,6 +269,7 @@ impl Ctx {
             by_name: HashMap::new(),
             cur_op: 0,
             cur_sub: 0,
+            prepared: HashMap::new(),
             type_ids: type_id_table(),
             stats: Stats::default(),
         }
@@ -372,6 +384,10 @@ impl Ctx {
             .collect();
         arch.sort();
         let arch_s: Vec<String> = arch.iter().map(|(ts, n)| format!("{}={}", show_nats(ts), n)).collect();
+        let ag: String = format!("{:?}", world.archetypes_generation())
+            .chars()
+            .filter(|c| c.is_ascii_digit())
+            .collect();
         let hs_s: Vec<String> = hs
             .iter()
             .map(|&h| {
@@ -385,7 +401,7 @@ impl Ctx {
             .collect();
         (
             format!("obs W{} hs={}", w, show_entities(&hs)),
-            format!("len={} iter=[{}] arch=[{}] hs=[{}]", len, iter_s.join(";"), arch_s.join(";"), hs_s.join(",")),
+            format!("len={} iter=[{}] arch=[{}] ag={} hs=[{}]", len, iter_s.join(";"), arch_s.join(";"), ag, hs_s.join(",")),
         )
     }
 
@@ -430,7 +446,7 @@ impl Ctx {
         let (lhs, res) = self.exec_inner(op);
         let drops = take_drops();
         let rhs = match op {
-            Op::Obs { .. } | Op::NewWorld { .. } => res,
+            Op::Obs { .. } | Op::NewWorld { .. } | Op::Query { .. } => res,
             _ => {
                 if res == "panic" {
                     res
@@ -663,6 +679,27 @@ impl Ctx {
                 (op.show(), format!("es={}", show_entities(&es)))
             }
             Op::Obs { w } => self.obs(*w),
+            Op::Query { w, q, path, h, n } => {
+                let e = self.resolve(h);
+                let hs = self.probe_handles(*w);
+                let mut store = std::mem::take(&mut self.prepared);
+                let world = self.world(*w);
+                let r = crate::query_engine::exec_query(world, *q, path, e, &hs, (*n).max(1) as u32, &mut store);
+                self.prepared = store;
+                (
+                    format!(
+                        "query W{} k={} q={} path={} h={} hs={} n={}",
+                        w,
+                        q,
+                        crate::query_engine::query_desc(*q),
+                        path,
+                        show_entity(e),
+                        show_entities(&hs),
+                        (*n).max(1)
+                    ),
+                    r,
+                )
+            }
             Op::DropWorld { w } => {
                 let world = self.worlds[*w].take();
                 drop(world);
@@ -691,6 +728,8 @@ pub enum Profile {
     Reserve,
     /// column batches and id-targeted spawns (C12, C14 substrate)
     Batch,
+    /// world mutations interleaved with queries through every access path (C08, C17)
+    Query,
 }
 
 impl Gen {
@@ -817,6 +856,7 @@ impl Gen {
             Profile::Malformed => [10, 3, 1, 1, 1, 16, 16, 10, 14, 8, 1, 1, 1, 2, 1, 0],
             Profile::Reserve => [8, 4, 1, 3, 3, 10, 6, 3, 10, 3, 1, 4, 1, 18, 12, 0],
             Profile::Batch => [8, 8, 4, 16, 12, 6, 5, 2, 10, 2, 1, 2, 1, 3, 3, 0],
+            Profile::Query => [14, 2, 3, 3, 1, 10, 8, 4, 8, 2, 1, 2, 1, 2, 1, 60],
         };
         match self.rng.weighted(&weights) {
             0 => {
@@ -901,7 +941,16 @@ impl Gen {
             12 => Op::Reserve { w, k: self.rng.below(NBUNDLES) },
             13 => Op::ReserveEntity { w },
             14 => Op::ReserveEntities { w, n: self.rng.below(5) },
-            _ => Op::Obs { w },
+            _ => {
+                if self.profile != Profile::Query {
+                    return Op::Obs { w };
+                }
+                let q = self.rng.below(crate::query_engine::NQUERIES);
+                let path = crate::query_engine::PATHS[self.rng.below(crate::query_engine::PATHS.len())].to_string();
+                let (h, _) = self.pick_handle(ctx, w);
+                let n = *self.rng.pick(&[1usize, 2, 3, 7, 64]).unwrap();
+                Op::Query { w, q, path, h, n }
+            }
         }
     }
 }
@@ -973,7 +1022,8 @@ pub fn run_history(
             Op::Spawn { w, .. } | Op::SpawnAt { w, .. } | Op::SpawnBatch { w, .. } | Op::SpawnCb { w, .. }
             | Op::SpawnCbAt { w, .. } | Op::Insert { w, .. } | Op::Remove { w, .. } | Op::Exchange { w, .. }
             | Op::Despawn { w, .. } | Op::Take { w, .. } | Op::Clear { w } | Op::Flush { w } | Op::Reserve { w, .. }
-            | Op::ReserveEntity { w } | Op::ReserveEntities { w, .. } | Op::Obs { w } | Op::DropWorld { w } => Some(*w),
+            | Op::ReserveEntity { w } | Op::ReserveEntities { w, .. } | Op::Obs { w } | Op::DropWorld { w }
+            | Op::Query { w, .. } => Some(*w),
         };
         if let Some(w) = w {
             if !ctx.has_world(w) {
@@ -992,7 +1042,7 @@ pub fn run_history(
         match r {
             Ok((lhs, rhs)) => {
                 out.trace.push(format!("{} => {}", lhs, rhs));
-                if let (Some(w), false) = (w, matches!(op, Op::Obs { .. } | Op::DropWorld { .. })) {
+                if let (Some(w), false) = (w, matches!(op, Op::Obs { .. } | Op::DropWorld { .. } | Op::Query { .. })) {
                     if let Some(s) = ctx.state_line(w) {
                         out.trace.push(s);
                     }
@@ -1010,7 +1060,7 @@ pub fn run_history(
                 break;
             }
         }
-        if !scripted && obs_every > 0 && !matches!(op, Op::Obs { .. } | Op::DropWorld { .. } | Op::NewWorld { .. }) {
+        if !scripted && obs_every > 0 && !matches!(op, Op::Obs { .. } | Op::DropWorld { .. } | Op::NewWorld { .. } | Op::Query { .. }) {
             since_obs += 1;
             if since_obs >= obs_every {
                 since_obs = 0;
